@@ -5,7 +5,7 @@ CONSTANTS
   Steps = {0, 1, 2}
   Prec = 1
   MaxTime = 12
-  MaxOps = 6
+  MaxOps = 5
   Mutant = "late_slide"
 INVARIANTS TypeOK Bounded Window
 CHECK_DEADLOCK FALSE
